@@ -154,6 +154,11 @@ func primitives() []any {
 		add(s)
 	}
 	add([]byte(nil), []byte{}, []byte{0}, []byte{1, 2, 255})
+	add([4]byte{1, 2, 3, 255}, [2]uint8{}, struct{ A [2]byte }{[2]byte{7, 8}}, [][2]byte{{1, 2}, {3, 4}}, [2][2]uint8{{1, 2}, {3, 4}}, struct {
+		N byte
+		B [3]byte
+		S string
+	}{1, [3]byte{4, 5, 6}, "z"})
 	add([]uint16{}, []uint16{1, 65535}, []string{"", "a"}, [][]byte{{1}, {}}, [3]int32{1, -2, 3}, [0]int8{}, [][]int64{{1}, {}, {2, 3}})
 	add(inner{A: -3, B: []uint16{7}, C: [2]string{"x", ""}}, outer{X: 9, In: inner{A: 1}, Ls: []inner{{}, {A: 2, B: []uint16{1, 2}}}, F: 2.5, Bs: []byte{9}, Ok: true, S: "s"}, []outer{{}, {S: "héllo✓"}})
 	// element types that differ in width but not in name (anonymous structs, local types of the same name): wide first, then
